@@ -18,6 +18,8 @@ cases = {
  'C08 walk_dependents early continue': ('C08', [('src/pycel/excelcompiler.py', "                if child_addr not in needed_cells:\n                    needed_cells.add(child_addr)\n                    walk_dependents(child_cell)", "                if child_addr in needed_cells:\n                    continue\n                needed_cells.add(child_addr)\n                walk_dependents(child_cell)")]),
  'C12 close_enough local names': ('C12', [('src/pycel/excelcompiler.py', "            if tol is not None:\n                return abs(value - self.value) < (1 + rel) * tol", "            if tol is not None:\n                delta = abs(value - self.value)\n                return delta < tol + rel * tol")]),
  'C04 process_gen_graph local rename': ('C04', [('src/pycel/excelcompiler.py', "                    precedent = self.cell_map[precedent_address.address]\n                    self.dep_graph.add_edge(precedent, dependant)", "                    pre = self.cell_map[precedent_address.address]\n                    precedent = pre\n                    self.dep_graph.add_edge(pre, dependant)")]),
+ 'C16 _match equivalent rewrites': ('C16', [('src/pycel/lib/lookup.py', "        if result == 0 or lookup_array[result - 1] is None:", "        if not result or lookup_array[result - 1] is None:"), ('src/pycel/lib/lookup.py', "            lo += 1\n", "            lo = lo + 1\n")]),
+ 'C01 _reset log after the write': ('C01', [('src/pycel/excelcompiler.py', "        self.log.info(f\"Resetting {cell.address}\")\n        cell.value = None\n", "        cell.value = None\n        self.log.info(f\"Resetting {cell.address}\")\n")]),
  'C07 tracker wip docstring+temp': ('C07', [('src/pycel/excelutil.py', "        self.ns.todo.add(cell)", "        todo = self.ns.todo\n        todo.add(cell)")]),
 }
 for name, (prop, edits) in cases.items():
